@@ -332,6 +332,24 @@ fn handle(ctx: &mut rink_core::Context, req: &J) -> J {
             for p in req["prefixes"].as_array().unwrap() {
                 c.registry.prefixes.push((p[0].as_str().unwrap().to_string(), numeric(&p[1])));
             }
+            // aliases: a unit carrying another unit's dimension tag; definitions: name -> unit name, or null for a
+            // non-alias definition
+            if let Some(al) = req.get("unit_dims").and_then(|x| x.as_object()) {
+                for (k, stem) in al {
+                    if let Some(n) = c.registry.units.get_mut(k) {
+                        n.unit = vec![(BaseUnit::new(&format!("u_{}", stem.as_str().unwrap())), 1i64)].into_iter().collect();
+                    }
+                }
+            }
+            if let Some(defs) = req.get("definitions").and_then(|x| x.as_object()) {
+                for (k, target) in defs {
+                    let e = match target.as_str() {
+                        Some(t) => rink_core::ast::Expr::new_unit(t.to_string()),
+                        None => rink_core::ast::Expr::new_const(Numeric::one()),
+                    };
+                    c.registry.definitions.insert(k.clone(), e);
+                }
+            }
             if let Some(pv) = req.get("prev").filter(|x| !x.is_null()) {
                 let d: Dimensionality = vec![(BaseUnit::new("u_ans"), 1i64)].into_iter().collect();
                 c.previous_result = Some(Number { value: numeric(pv), unit: d });
@@ -339,8 +357,10 @@ fn handle(ctx: &mut rink_core::Context, req: &J) -> J {
             let mut outs = vec![];
             for n in req["names"].as_array().unwrap() {
                 let n = n.as_str().unwrap();
+                let canon = c.canonicalize(n);
                 outs.push(json!({"name": n, "lookup": c.lookup(n).map(|x| out_number(&x)),
-                                 "canonicalize": c.canonicalize(n)}));
+                                 "lookup_canon": canon.as_ref().and_then(|k| c.lookup(k)).map(|x| out_number(&x)),
+                                 "canonicalize": canon}));
             }
             json!({"outcome": "ok", "lookups": outs})
         }),
